@@ -488,17 +488,28 @@ class StmtMixin:
                 continue   # first assigned inside the loop: not live at the head
             st.env[n] = self.fresh_sv(ty, n, st)
         fields = self.assigned_fields(nodes)
+        local = {}
         for m in self.contract.modifies:
             if m in C.GHOSTS:
-                if m in st.env:
-                    st.env[m] = self.fresh_sv(st.env[m].ty, "g_" + m, st)
+                if m not in st.env:
+                    self.ghost_entry(m, st)
+                st.env[m] = self.fresh_sv(st.env[m].ty, "g_" + m, st)
+            elif m.startswith("*."):
+                fields.add(m[2:])
             elif "." in m:
-                fields.add(m.split(".", 1)[1])
-        if any(isinstance(x, ast.Call) for nd in nodes for x in ast.walk(nd)):
-            # calls may modify anything the function is allowed to modify (already added above)
-            pass
-        for f in sorted(fields):
-            if f in st.heap or self.field_type(f) is not None:
+                p, f = m.split(".", 1)
+                local.setdefault(f, []).append(p)
+        for f in sorted(fields | set(local)):
+            if not (f in st.heap or self.field_type(f) is not None):
+                continue
+            if f in local and f not in {m[2:] for m in self.contract.modifies if m.startswith("*.")}:
+                # the function may write this field only at the listed objects (frame-checked at exit)
+                for p in local[f]:
+                    obj = self.params_env[p]
+                    if obj.ty.kind == "opt":
+                        obj = opt_inner(obj)
+                    self.heap_havoc(st, f, at=obj.ts[0])
+            else:
                 self.heap_havoc(st, f)
 
     def prune_dead(self, st):
@@ -529,11 +540,13 @@ class StmtMixin:
 
     def prove_invariants(self, st, spec, idx, when):
         for name, expr in self.invariants(spec).items():
+            self.cur_clause = name
             g, sk = self.goal_term(expr, st.env, st, old=self.entry_state)
             self.oblige(st, g, "%s#loop%d.%s.%s" % (self.short, idx, name, when), "invariant", self.curline, expr, sk)
 
     def assume_invariants(self, st, spec):
         for name, expr in self.invariants(spec).items():
+            self.cur_clause = name
             st.assume(self.clause_term(expr, st.env, st, old=self.entry_state))
 
     def st_While(self, s, st):
